@@ -24,10 +24,12 @@ RULE = ("random programs over nested let (sequential bindings, destructuring tar
         "binder, and the program has a closure reading a let variable or an assignment to a let "
         "variable; distinct by program text.")
 FLOOR = {"quick": 800, "thorough": 800}
-BUDGET = {"quick": 32, "thorough": 480}
+BUDGET = {"quick": 26, "thorough": 480}
 CASE_TIMEOUT = 20
 NEEDS_EVENTS = True
-ANCHORS = ["hy.scoping:ScopeLet.access", "hy.scoping:ScopeLet.assign", "hy.scoping:ScopeLet.define",
+# (ScopeLet.access / .assign are wrapped by NodeRef.wrap, whose closure hides the code
+# object from hv/reach.py; both funnel through _rename_if_bound, which is anchored)
+ANCHORS = ["hy.scoping:ScopeLet.define",
            "hy.scoping:ScopeLet.add", "hy.scoping:ScopeLet._rename_if_bound",
            "hy.scoping:ScopeFn.__exit__", "hy.scoping:ScopeGen.iterator",
            "hy.core.result_macros:compile_let"]
@@ -53,6 +55,15 @@ MANIFEST = {
 
 INTS = ["a", "b", "c"]
 FNS = ["f", "g"]
+# Mechanism found on the unchanged tree (attribution in run_case):
+# ScopeGen.iterator removes from `self.seen` every pending reference whose name is an
+# iteration / :setv variable -- including the references made by the *first iterable*,
+# which lexically belong to the enclosing scope.  They are then never handed to the
+# enclosing ScopeLet, i.e. never renamed:
+#   (setv x 5) (let [x 2] (lfor x (range x) x))  -> iterates range(5), not range(2)
+#   (let [x [1 2]] (lfor x x (* x 10)))          -> NameError: x
+# Repair: when the first clause is an iteration / :setv clause, pass the references seen
+# while compiling its source expression to `self.parent.access` before they are dropped.
 KNOWN_KEY = "let-ref-in-first-iterable-not-renamed"
 
 
@@ -89,7 +100,7 @@ class Gen:
         self.r = rng
         self.lid = 0
         self.const = 10
-        self.budget = 20
+        self.budget = 15
         self.maxdepth = maxdepth
 
     def k(self):
@@ -401,6 +412,12 @@ def cases(seed, tier, shard, nshards):
         census = binder_census(mod)
         multi = [n for n, bs in census.items()
                  if len(bs) >= 2 and any(b[0] == "let" for b in bs)]
+        nlet = sum(1 for b in res.binders.values() if b["kind"] == "let")
+        interesting = bool(multi) and (res.stats["closure_let_refs"] or res.stats["let_assigns"])
+        # generation is cheap, running is not: keep every program that meets the
+        # non-trivial rule, a third of the other let programs, no let-free ones
+        if nlet == 0 or (not interesting and rng.random() < 0.67):
+            continue
         feats = sorted({f[0] for f in res.features})
         case = {"hy": S.to_hy(mod), "twin": S.to_hy(mod, True), "mode": mode,
                 "stats": res.stats, "multi": sorted(multi), "features": feats,
